@@ -35,9 +35,12 @@ static void api_case(const Pattern &p, hx::Rng &rng, const Cfg &cfg) { hx::CaseO
     const int *P0=gp0.data()+1, *C0=gc0.data()+1, *P1=gp1.data()+1, *C1=gc1.data()+1; const scalar *V=gv.data()+1;
     scalar tol=var("tol",1e-8);
     // parameters through the typed setters
-    capi::amgclHandle prm=capi::amgcl_params_create(); capi::amgcl_params_sets(prm,"precond.coarsening.type",cfg.coarsening.c_str()); capi::amgcl_params_sets(prm,"precond.relax.type",cfg.relax.c_str()); capi::amgcl_params_sets(prm,"solver.type",cfg.solver.c_str()); capi::amgcl_params_seti(prm,"solver.maxiter",cfg.maxiter); capi::amgcl_params_seti(prm,"precond.coarse_enough",2); capi::amgcl_params_setf(prm,"precond.coarsening.aggr.eps_strong",0.125f);
+    capi::amgclHandle prm=capi::amgcl_params_create();
+    // every key is first set to a throw-away value: a later call of a typed setter REPLACES the earlier value
+    capi::amgcl_params_seti(prm,"solver.maxiter",97); capi::amgcl_params_seti(prm,"precond.coarse_enough",41); capi::amgcl_params_setf(prm,"precond.coarsening.aggr.eps_strong",0.75f); capi::amgcl_params_sets(prm,"solver.type","richardson"); capi::amgcl_params_sets(prm,"solver.tol","0.5");
+    capi::amgcl_params_sets(prm,"precond.coarsening.type",cfg.coarsening.c_str()); capi::amgcl_params_sets(prm,"precond.relax.type",cfg.relax.c_str()); capi::amgcl_params_sets(prm,"solver.type",cfg.solver.c_str()); capi::amgcl_params_seti(prm,"solver.maxiter",cfg.maxiter); capi::amgcl_params_seti(prm,"precond.coarse_enough",2); capi::amgcl_params_setf(prm,"precond.coarsening.aggr.eps_strong",0.125f);
     { std::ostringstream ts; ts<<tol; capi::amgcl_params_sets(prm,"solver.tol",ts.str().c_str()); }
-    boost::property_tree::ptree pt; pt.put("precond.coarsening.type",cfg.coarsening); pt.put("precond.relax.type",cfg.relax); pt.put("solver.type",cfg.solver); pt.put("solver.maxiter",cfg.maxiter); pt.put("precond.coarse_enough",2); pt.put("precond.coarsening.aggr.eps_strong",0.125f); pt.put("solver.tol",tol);
+    boost::property_tree::ptree pt; pt.put("solver.maxiter",97); pt.put("precond.coarse_enough",41); pt.put("precond.coarsening.aggr.eps_strong",0.75f); pt.put("solver.type","richardson"); pt.put("solver.tol","0.5"); pt.put("precond.coarsening.type",cfg.coarsening); pt.put("precond.relax.type",cfg.relax); pt.put("solver.type",cfg.solver); pt.put("solver.maxiter",cfg.maxiter); pt.put("precond.coarse_enough",2); pt.put("precond.coarsening.aggr.eps_strong",0.125f); pt.put("solver.tol",tol);
     hx::require("typed setters store the parameters unchanged", *static_cast<boost::property_tree::ptree*>(prm)==pt);
     Vec f=hx::sym_vector("f",n), x0=hx::sym_vector("x",n,0.25);
     // C++ run-time interface
@@ -55,6 +58,11 @@ static void api_case(const Pattern &p, hx::Rng &rng, const Cfg &cfg) { hx::CaseO
       hx::require("solve with a replacement matrix: C API (0-based) = C++", same_vec(xa,xc) && (size_t)ca.iterations==itc && hx::same_handle(ca.residual,resc)); hx::require("solve with a replacement matrix: 1-based = 0-based", same_vec(xb,xa) && cb.iterations==ca.iterations && hx::same_handle(cb.residual,ca.residual)); bool cl=true; for (auto &v : xa) cl=cl&&hx::independent_of(v,"junk_"); for (auto &v : xb) cl=cl&&hx::independent_of(v,"junk_"); hx::require("replacement matrix: nothing outside the arrays is read", cl); }
     // preconditioner handles
     { capi::amgclHandle pprm=capi::amgcl_params_create(); capi::amgcl_params_sets(pprm,"coarsening.type",cfg.coarsening.c_str()); capi::amgcl_params_sets(pprm,"relax.type",cfg.relax.c_str()); capi::amgcl_params_seti(pprm,"coarse_enough",2); capi::amgcl_params_setf(pprm,"coarsening.aggr.eps_strong",0.125f);
+      // non-default cycle parameters must reach the stand-alone preconditioner handle too
+      for (int pc : {2, 0}) { capi::amgcl_params_seti(pprm,"pre_cycles",pc); capi::amgcl_params_seti(pprm,"npre",2); capi::amgclHandle q0=capi::amgcl_precond_create(n,P0,C0,V,pprm), q1=capi::amgcl_precond_create_f(n,P1,C1,V,pprm); Vec z0(n), z1(n); for (int i=0;i<n;++i) { z0[i]=hx::junk("z"+std::to_string(i)); z1[i]=z0[i]; } capi::amgcl_precond_apply(q0,f.data(),z0.data()); capi::amgcl_precond_apply(q1,f.data(),z1.data());
+          boost::property_tree::ptree pq=pt.get_child("precond"); pq.put("pre_cycles",pc); pq.put("npre",2); CXXP qc(std::tie(n,A.ptr,A.col,A.val),pq); NV Z(n,false); for (int i=0;i<n;++i) Z[i]=hx::junk("w"+std::to_string(i)); qc.apply(F,Z);
+          hx::require("C API preconditioner apply with pre_cycles="+std::to_string(pc)+", npre=2 = C++ preconditioner apply; 1-based = 0-based", same_vec(z0,hx::to_vec(Z)) && same_vec(z1,z0)); capi::amgcl_precond_destroy(q0); capi::amgcl_precond_destroy(q1); }
+      capi::amgcl_params_seti(pprm,"pre_cycles",1); capi::amgcl_params_seti(pprm,"npre",1);
       capi::amgclHandle p0=capi::amgcl_precond_create(n,P0,C0,V,pprm), p1=capi::amgcl_precond_create_f(n,P1,C1,V,pprm); capi::amgcl_params_destroy(pprm); Vec y0(n,scalar(0)), y1(n,scalar(0)); for (int i=0;i<n;++i) { y0[i]=hx::junk("y"+std::to_string(i)); y1[i]=y0[i]; } capi::amgcl_precond_apply(p0,f.data(),y0.data()); capi::amgcl_precond_apply(p1,f.data(),y1.data());
       boost::property_tree::ptree pp=pt.get_child("precond"); CXXP pc(std::tie(n,A.ptr,A.col,A.val),pp); NV Y(n,false); for (int i=0;i<n;++i) Y[i]=scalar(0); pc.apply(F,Y); hx::require("C API preconditioner apply = C++ preconditioner apply; 1-based = 0-based", same_vec(y0,hx::to_vec(Y)) && same_vec(y1,y0)); capi::amgcl_precond_destroy(p0); capi::amgcl_precond_destroy(p1); }
     capi::amgcl_solver_destroy(s0); capi::amgcl_solver_destroy(s1); capi::amgcl_params_destroy(prm); } catch (const std::runtime_error &e) { hx::cuts(false); hx::count("solver breakdown exception paths"); } },coo); }
